@@ -508,16 +508,14 @@ theorem treeOf_exact (flt : Fault) (s : Name) (acts : List Act) (w : World)
   by_cases hq : q = []
   · subst hq; simp only [if_true]; exact d _ hroot
   · rw [if_neg hq]
-    cases hfind : acts.findSome? (fun a => match a with
-        | .write r c => if r = q then some c else none
-        | .mkdirAll _ => none) with
+    cases hfind : acts.findSome? (Act.writes q) with
     | some c =>
       simp only
       obtain ⟨a, ha, hfa⟩ := List.exists_of_findSome?_eq_some hfind
       cases a with
       | mkdirAll _ => cases hfa
       | write r c' =>
-        simp only at hfa
+        simp only [Act.writes] at hfa
         by_cases hr : r = q
         · rw [if_pos hr] at hfa
           injection hfa with hc
@@ -551,7 +549,7 @@ theorem treeOf_exact (flt : Fault) (s : Name) (acts : List Act) (w : World)
             intro h0; subst h0
             rw [List.append_nil] at ht
             have := hfind _ ha
-            simp only [ht, if_true] at this
+            simp only [Act.writes, ht, if_true] at this
             cases this
           refine wf_prefix_dir wf' (s :: q) hsq t.length t rfl ht0 ?_
           rw [List.cons_append, ht, hpa]; simp
@@ -795,5 +793,142 @@ theorem printLines_status (flt : Fault) : ∀ (n : Nat) (w : World), (printLines
     cases hf : flt .write (tick .write w).2 with
     | some e => simp
     | none => simp only; exact ih _
+
+/-! ## contents of the complete tree -/
+
+theorem writeRels_unique : ∀ (acts : List Act) (r : Path) (c c' : List Char), (writeRels acts).Nodup →
+    Act.write r c ∈ acts → Act.write r c' ∈ acts → c = c' := by
+  intro acts
+  induction acts with
+  | nil => intro r c c' _ h; cases h
+  | cons a rest ih =>
+    intro r c c' hnd h1 h2
+    have hnd' : (writeRels rest).Nodup := by
+      simp only [writeRels, List.filterMap_cons] at hnd ⊢
+      cases a with
+      | mkdirAll _ => exact hnd
+      | write r0 c0 => exact (List.nodup_cons.1 hnd).2
+    have hnotin : ∀ c0 c1, a = Act.write r c0 → Act.write r c1 ∈ rest → False := by
+      intro c0 c1 ha hm
+      subst ha
+      simp only [writeRels, List.filterMap_cons] at hnd
+      exact (List.nodup_cons.1 hnd).1 (mem_writeRels hm)
+    rcases List.mem_cons.1 h1 with e1 | m1
+    · rcases List.mem_cons.1 h2 with e2 | m2
+      · rw [← e1] at e2; injection e2 with _ h; exact h.symm
+      · exact (hnotin c c' e1.symm m2).elim
+    · rcases List.mem_cons.1 h2 with e2 | m2
+      · exact (hnotin c' c e2.symm m1).elim
+      · exact ih r c c' hnd' m1 m2
+
+theorem treeOf_write {acts : List Act} {r : Path} {c : List Char} (hnd : (writeRels acts).Nodup)
+    (hm : Act.write r c ∈ acts) (hr : r ≠ []) : treeOf acts r = some (.file c) := by
+  unfold treeOf
+  rw [if_neg hr]
+  cases hfind : acts.findSome? (Act.writes r) with
+  | none =>
+    rw [List.findSome?_eq_none_iff] at hfind
+    have := hfind _ hm
+    simp [Act.writes] at this
+  | some c' =>
+    simp only
+    obtain ⟨a, ha, hfa⟩ := List.exists_of_findSome?_eq_some hfind
+    cases a with
+    | mkdirAll _ => cases hfa
+    | write r' c'' =>
+      simp only [Act.writes] at hfa
+      by_cases hrr : r' = r
+      · rw [if_pos hrr] at hfa
+        injection hfa with hc
+        subst hrr; subst hc
+        rw [writeRels_unique acts r' c c'' hnd hm ha]
+      · rw [if_neg hrr] at hfa; cases hfa
+
+theorem treeOf_dir {acts : List Act} {d : Path} (hm : Act.mkdirAll d ∈ acts) (hd : d ≠ [])
+    (hnw : d ∉ writeRels acts) : treeOf acts d = some .dir := by
+  unfold treeOf
+  rw [if_neg hd]
+  have hnone : acts.findSome? (Act.writes d) = none := by
+    rw [List.findSome?_eq_none_iff]
+    intro a ha
+    cases a with
+    | mkdirAll _ => rfl
+    | write r' c =>
+      simp only [Act.writes]
+      by_cases hrr : r' = d
+      · subst hrr; exact absurd (mem_writeRels ha) hnw
+      · rw [if_neg hrr]
+  rw [hnone]
+  simp only
+  have : acts.any (fun a => d.isPrefixOf a.rel) = true := by
+    rw [List.any_eq_true]
+    exact ⟨_, hm, by simp [Act.rel]⟩
+  rw [if_pos this]
+
+theorem tables_shape :
+    ((Generated.projectFiles.map (·.1)).all (fun p => !p.isEmpty) &&
+     Generated.projectDirs.all (fun d => !d.isEmpty && !(Generated.projectFiles.map (·.1)).contains d &&
+        !Generated.keypairDir.isPrefixOf d)) = true := by
+  decide +kernel
+
+/-- See `Cli.C20.complete_tree_contents`. -/
+theorem projectTree_contents (name : Name) (keys : Keys) :
+    projectTree name keys [] = some .dir ∧
+    projectTree name keys (keypairRel name) = some (.file keys.json) ∧
+    (∀ f ∈ Generated.projectFiles,
+      projectTree name keys f.1 = some (.file (render (TemplateValues.new name keys.pubkey) f.2))) ∧
+    (∀ d ∈ Generated.projectDirs, projectTree name keys d = some .dir) := by
+  have hnd := projectActs_nodup name keys
+  have hshape := tables_shape
+  simp only [Bool.and_eq_true, List.all_eq_true, Bool.not_eq_true', List.isEmpty_eq_false_iff] at hshape
+  refine ⟨by simp [projectTree, treeOf], ?_, ?_, ?_⟩
+  · apply treeOf_write hnd
+    · simp [projectActs]
+    · simp [keypairRel]
+  · intro f hf
+    apply treeOf_write hnd
+    · simp only [projectActs, List.mem_append, List.mem_map]
+      left; right; exact ⟨f, hf, rfl⟩
+    · exact hshape.1 _ (List.mem_map.2 ⟨f, hf, rfl⟩)
+  · intro d hd
+    obtain ⟨⟨h1, h2⟩, h3⟩ := hshape.2 d hd
+    apply treeOf_dir
+    · simp only [projectActs, List.mem_append, List.mem_map]
+      left; left; exact ⟨d, hd, rfl⟩
+    · exact h1
+    · rw [projectActs_writeRels, List.mem_append, List.mem_singleton]
+      rintro (hm | hm)
+      · have : (Generated.projectFiles.map (·.1)).contains d = true := List.contains_iff_mem.2 hm
+        rw [this] at h2; cases h2
+      · have hp : Generated.keypairDir.isPrefixOf d = true := by
+          rw [hm, List.isPrefixOf_iff_prefix]; exact List.prefix_append _ _
+        rw [hp] at h3; cases h3
+
+/-! ## new_project -/
+
+/-- See `Cli.C20.new_project_all_or_nothing`. -/
+theorem newProject_spec (flt : Fault) (keys : Keys) (stg : Name → Nat → Name) (arg : List Char)
+    (w : World) (hwf : WF w.fs) (hstg : ∀ n k, stg n k ≠ n) :
+    (∃ n, validateArg arg = .ok n ∧ w.fs [n] = none ∧ (newProject flt keys stg arg w).2 ≠ .err ∧
+      (newProject flt keys stg arg w).1.fs = graft w.fs n (projectTree n keys)) ∨
+    ((newProject flt keys stg arg w).2 = .err ∧ (newProject flt keys stg arg w).1.fs = w.fs) := by
+  unfold newProject
+  cases hv : validateArg arg with
+  | error e => right; exact ⟨rfl, rfl⟩
+  | ok n =>
+    simp only
+    have hs := scaffold_spec flt keys (stg n) n w hwf (hstg n)
+    rcases hr : scaffoldProject flt keys (stg n) n w with ⟨w1, st⟩
+    rw [hr] at hs
+    simp only at hs ⊢
+    rcases hs with ⟨hok, hnone, hfs⟩ | ⟨herr, hfs⟩
+    · subst hok
+      simp only
+      left
+      refine ⟨n, rfl, hnone, printLines_status flt _ w1, ?_⟩
+      rw [printLines_fs]; exact hfs
+    · subst herr
+      simp only
+      right; exact ⟨trivial, hfs⟩
 
 end Cli
